@@ -260,4 +260,50 @@ def currentTreeKey (tree : Nat) (hasRev : List Bool) : Option Term :=
   | true :: rest => some (.tk tree rest.length)
   | _ => none
 
+/-! ### the honest record builder (`aclrecordbuilder.go`) -/
+
+/-- operations of honest participants, as the real builder offers them -/
+inductive Op where
+  /-- BuildAccountsAdd / BuildRequestAccept / BuildInviteJoinWithoutApprove for account `a` -/
+  | join (a : Nat)
+  /-- BuildAccountRemove (`rm ≠ []`) / BuildReadKeyChange (`rm = []`) -/
+  | rotate (rm : List Nat)
+  | invite (i : Nat) (isOpen : Bool)
+  | revoke (i : Nat)
+  | drop (a : Nat)
+  | write (tree d : Nat)
+  /-- BuildBatchRequest{InviteRevokes, Removals} after fix F-keys-batch-revoke-keeps-key: revokes first,
+  then the removal whose rotation no longer addresses the revoked invites -/
+  | batchRevokeRemove (revoked : List Nat) (rm : List Nat)
+deriving Repr
+
+/-- `buildReadKeyChange`: the new key for every account holding a permission (minus the removed ones)
+and for every live anyone-can-join invite, the current key chained under the new one -/
+def buildRotate (g : G) (rm : List Nat) : Item :=
+  .rotate rm
+    ((g.members.filter (fun a => !(rm.contains a))).map (fun a => (a, Term.aenc (.acc a) (.rk g.ngen))))
+    (g.openIds.map (fun i => (i, Term.aenc (.inv i) (.rk g.ngen))))
+    (.senc (.rk g.ngen) (.rk (g.ngen - 1)))
+
+/-- the contents the builder produces for an operation (`[]` when it refuses) -/
+def buildOp (g : G) : Op → List Item
+  | .join a => if g.members.contains a then [] else [.enter a (.aenc (.acc a) (.rk (g.ngen - 1)))]
+  | .rotate rm => if rm.all (fun a => g.members.contains a) then [buildRotate g rm] else []
+  | .invite i o => [.invite i o (if o then .aenc (.inv i) (.rk (g.ngen - 1)) else .junk)]
+  | .revoke i => if (g.invites.map (·.id)).contains i then [.revoke i] else []
+  | .drop a => if g.members.contains a then [.drop a] else []
+  | .write tree d => [.content tree (g.ngen - 1) d]
+  | .batchRevokeRemove revoked rm =>
+      if revoked.all (fun i => (g.invites.map (·.id)).contains i) && rm.all (fun a => g.members.contains a) then
+        let g' := gFrom g (revoked.map Item.revoke)
+        revoked.map Item.revoke ++ [buildRotate g' rm]
+      else []
+
+def buildLog : G → List Op → List Item
+  | _, [] => []
+  | g, op :: rest => buildOp g op ++ buildLog (gFrom g (buildOp g op)) rest
+
+/-- the log honest participants produce from the root of `owner` -/
+def honestLog (owner : Nat) (ops : List Op) : List Item := buildLog (G0 owner) ops
+
 end AnySync.Keys
